@@ -1,5 +1,122 @@
-//! Checked constructors (C01): filled in below.
-use crate::Case;
+//! Checked constructors of the multinomial family (C01).  The binomial ones are op "bnew" in bi.rs.
+//!   new_spx  <ty> <arr|marr|marrd> <try_new|new|try_from> 1 n  : b(n) u
+//!   new_op   <ty> <arr|marr|marrd> <try_new|new|try_from|into_opinion> 1 n : b(n) u a(n)
+//!   new_flags <ty> - - 0 : u          -> is_vacuous / is_dogmatic of simplex, opinion, opinion view
+//! Answer: OK <stored values read back> | ERR <message> | PANIC <message>
+use subjective_logic::mul::labeled::{OpinionD1, SimplexD1};
+use subjective_logic::mul::non_labeled::Simplex1d;
+use subjective_logic::mul::{Opinion, OpinionRef, Simplex};
+use subjective_logic::multi_array::labeled::MArrD1;
+use subjective_logic::multi_array::non_labeled::MArr1;
+
+use crate::fam::*;
+use crate::{rejected, Case};
+
+fn show<V: Vf>(vals: Vec<V>) -> String {
+    let mut s = String::from("OK");
+    for v in vals {
+        s.push_str(&format!(" {:x}", v.tb()));
+    }
+    s
+}
+fn sx<T: Tab<V>, V: Vf>(s: &Simplex<T, V>) -> Vec<V> {
+    let mut v = fl(&s.belief);
+    v.push(s.uncertainty);
+    v
+}
+fn op<T: Tab<V>, V: Vf>(w: &Opinion<T, V>) -> Vec<V> {
+    let mut v = sx(&w.simplex);
+    v.extend(fl(&w.base_rate));
+    v
+}
+fn res<X, V: Vf>(r: Result<X, subjective_logic::errors::InvalidValueError>, f: impl Fn(&X) -> Vec<V>) -> String {
+    match r {
+        Ok(x) => show(f(&x)),
+        Err(e) => format!("ERR {}{}", e.0, rejected()),
+    }
+}
+
+macro_rules! sized {
+    ($V:ty, $c:expr, $x:expr, $n:literal, $A:ident) => {{
+        let c: &Case = $c;
+        let x: &[$V] = $x;
+        let n = $n;
+        match (c.op, c.fam, c.style) {
+            ("new_spx", "arr", "try_new") => res(Simplex::<[$V; $n], $V>::try_new(mk(&x[..n]), x[n]), sx),
+            ("new_spx", "arr", "new") => show(sx(&Simplex::<[$V; $n], $V>::new(mk(&x[..n]), x[n]))),
+            ("new_spx", "arr", "try_from") => {
+                let b: [$V; $n] = mk(&x[..n]);
+                res(Simplex1d::<$V, $n>::try_from((b, x[n])), sx)
+            }
+            ("new_spx", "marr", "try_new") => res(Simplex::<MArr1<$V, $n>, $V>::try_new(mk(&x[..n]), x[n]), sx),
+            ("new_spx", "marr", "new") => show(sx(&Simplex::<MArr1<$V, $n>, $V>::new(mk(&x[..n]), x[n]))),
+            ("new_spx", "marrd", "try_new") => res(Simplex::<MArrD1<$A, $V>, $V>::try_new(mk(&x[..n]), x[n]), sx),
+            ("new_spx", "marrd", "new") => show(sx(&Simplex::<MArrD1<$A, $V>, $V>::new(mk(&x[..n]), x[n]))),
+            ("new_spx", "marrd", "try_from") => res(SimplexD1::<$A, $V>::try_from((x[..n].to_vec(), x[n])), sx),
+            ("new_op", "arr", "try_new") => {
+                res(Opinion::<[$V; $n], $V>::try_new(mk(&x[..n]), x[n], mk(&x[n + 1..])), op)
+            }
+            ("new_op", "arr", "new") => show(op(&Opinion::<[$V; $n], $V>::new(mk(&x[..n]), x[n], mk(&x[n + 1..])))),
+            ("new_op", "arr", "into_opinion") => {
+                // the simplex is validated at its own construction, the upgrade validates the base rate
+                match Simplex1d::<$V, $n>::try_new(mk(&x[..n]), x[n]) {
+                    Ok(s) => res(s.into_opinion(mk(&x[n + 1..])), op),
+                    Err(e) => format!("ERR {}{}", e.0, rejected()),
+                }
+            }
+            ("new_op", "marr", "try_new") => {
+                res(Opinion::<MArr1<$V, $n>, $V>::try_new(mk(&x[..n]), x[n], mk(&x[n + 1..])), op)
+            }
+            ("new_op", "marr", "new") => {
+                show(op(&Opinion::<MArr1<$V, $n>, $V>::new(mk(&x[..n]), x[n], mk(&x[n + 1..]))))
+            }
+            ("new_op", "marrd", "try_new") => {
+                res(Opinion::<MArrD1<$A, $V>, $V>::try_new(mk(&x[..n]), x[n], mk(&x[n + 1..])), op)
+            }
+            ("new_op", "marrd", "new") => {
+                show(op(&Opinion::<MArrD1<$A, $V>, $V>::new(mk(&x[..n]), x[n], mk(&x[n + 1..]))))
+            }
+            ("new_op", "marrd", "try_from") => {
+                res(OpinionD1::<$A, $V>::try_from((x[..n].to_vec(), x[n], x[n + 1..].to_vec())), op)
+            }
+            _ => format!("BAD no constructor {} {} {}", c.op, c.fam, c.style),
+        }
+    }};
+}
+
+macro_rules! c01_impl {
+    ($name:ident, $V:ty) => {
+        fn $name(c: &Case) -> String {
+            let x: Vec<$V> = c.bits.iter().map(|&b| <$V as Vf>::fb(b)).collect();
+            if c.op == "new_flags" {
+                let u = x[0];
+                let s = Simplex::<[$V; 2], $V>::new_unchecked([0.25, 0.25], u);
+                let w = Opinion::<[$V; 2], $V>::from((Simplex::new_unchecked([0.25, 0.25], u), [0.5, 0.5]));
+                let r: OpinionRef<[$V; 2], $V> = w.as_ref();
+                let f = |b: bool| if b { 1 } else { 0 };
+                return format!(
+                    "OK {} {} {} {} {} {}",
+                    f(s.is_vacuous()), f(s.is_dogmatic()), f(w.is_vacuous()), f(w.is_dogmatic()),
+                    f(r.is_vacuous()), f(r.is_dogmatic())
+                );
+            }
+            match c.dims[0] {
+                1 => sized!($V, c, &x, 1, A1),
+                2 => sized!($V, c, &x, 2, A2),
+                3 => sized!($V, c, &x, 3, A3),
+                4 => sized!($V, c, &x, 4, A4),
+                n => format!("BAD size {}", n),
+            }
+        }
+    };
+}
+c01_impl!(run_f64, f64);
+c01_impl!(run_f32, f32);
+
 pub fn run(c: &Case) -> String {
-    format!("BAD c01 op {} not implemented", c.op)
+    match c.ty {
+        "f64" => run_f64(c),
+        "f32" => run_f32(c),
+        t => format!("BAD type {t}"),
+    }
 }
